@@ -721,22 +721,18 @@ theorem getCommentGo_good {s : Src} (hs : AsciiThenBoundary s) (start n level : 
             have := bnd_succ hs h35' (by decide)
             rwa [show p + l - 1 + 1 = p + l by omega] at this
           split
-          · rename_i heq
-            have heq : p + l = s.size := by simpa using heq
-            exact (good_ok _ _ _ _ _).mpr ⟨by omega, by omega, hbl, hl1, hl3, hc⟩
-          · split
-            · exact step l (p + l) hl1 hl3 (by omega) (by omega) hst hbl
-            · rcases (expectByte_good s (p + l) 32 (by omega)).cases with ⟨_, q, hr, h1, h2, h3, h4⟩ | ⟨e, q, hr, h1, h2⟩ <;>
-                simp only [hr]
-              · subst h3
-                exact step l (p + l + 1) hl1 hl3 (by omega) h2 (by omega) (bnd_succ hs h4 (by decide))
-              · split
-                · simp; omega
-                · rename_i hne
-                  simp only [usub, Nat.le_add_left, if_true, Nat.add_sub_cancel]
-                  rcases hinv with ⟨_, i0, _⟩ | ⟨i1, i2, i3⟩
-                  · simp [i0] at hne
-                  · exact (good_ok _ _ _ _ _).mpr ⟨by omega, hp, hb, hl1, hl3, hc⟩
+          · exact step l (p + l) hl1 hl3 (by omega) (by omega) hst hbl
+          · rcases (expectByte_good s (p + l) 32 (by omega)).cases with ⟨_, q, hr, h1, h2, h3, h4⟩ | ⟨e, q, hr, h1, h2⟩ <;>
+              simp only [hr]
+            · subst h3
+              exact step l (p + l + 1) hl1 hl3 (by omega) h2 (by omega) (bnd_succ hs h4 (by decide))
+            · split
+              · simp; omega
+              · rename_i hne
+                simp only [usub, Nat.le_add_left, if_true, Nat.add_sub_cancel]
+                rcases hinv with ⟨_, i0, _⟩ | ⟨i1, i2, i3⟩
+                · simp [i0] at hne
+                · exact (good_ok _ _ _ _ _).mpr ⟨by omega, hp, hb, hl1, hl3, hc⟩
     · rcases hinv with ⟨_, _, _, h⟩ | ⟨i1, i2, i3⟩
       · have := get_lt h; omega
       · exact (good_ok _ _ _ _ _).mpr ⟨by omega, hp, hb, i1, i2, hc⟩
